@@ -66,10 +66,38 @@ def run(ctx, broken):
                     ctx.violation("impl:shared-field:" + names[i], {"kind": "implementation-vs-property",
                                   "why": "two proofs of the same witness under different randomness share %s" % names[i], "circuit": g})
                     break
+    # a FAILING caller RNG (try_fill_bytes returns an error / fill_bytes panics after k draws): every masking scalar must come
+    # from the caller's RNG, so no proof may be returned unless all 14 draws were delivered (a panic or an error is fine)
+    fail_lines, fail_meta = [], []
+    for src in (progs[:1] if ctx.tier == "quick" else progs[:4]):
+        d = [draw_hex(rng) for _ in range(14)]
+        pl = prove_line(srs, 600, b"zk", d, 3, src)
+        for k in range(0, 16):
+            fail_lines.append("provefail %d %s" % (k, pl)); fail_meta.append((k, pl))
+        fail_lines.append(pl); fail_meta.append((None, pl))
+    fouts = ctx.impl(fail_lines)
+    plain = {pl: o for (k, pl), o in zip(fail_meta, fouts) if k is None}
+    nfail = 0
+    for (k, pl), l, o in zip(fail_meta, fail_lines, fouts):
+        if k is None:
+            continue
+        nfail += 1
+        if k < 14 and o.startswith("proof="):
+            ctx.violation("impl:proof-without-rng-draws", {"kind": "implementation-vs-property", "why": "the caller's RNG failed after "
+                          "%d draws, yet a proof was returned: some masking scalar did not come from the caller's RNG" % k,
+                          "request": l, "impl_output": o[:300]})
+            break
+        if k >= 14 and o != plain.get(pl):
+            ctx.violation("impl:rng-budget-14", {"kind": "implementation-vs-property", "why": "an RNG that delivers exactly %d draws "
+                          "must give the same proof as an unlimited one (14 draws are prescribed)" % k, "request": l,
+                          "impl_output": o[:300], "unlimited": (plain.get(pl) or "")[:300]})
+            break
     st = r.report()
+    st["evaluations"] += nfail
+    st["failing_rng_cases"] = nfail
     st["proof_pairs_compared_for_shared_fields"] = len(by)
     st["rule"] = ("%d circuits x scripted RNG streams: fully random, each single draw (a1,a2,b1..d2,z1..z3,t1..t3) forced to 0 / 1 / r-1, "
                   "and a second independent stream. Real prover output (1008 bytes) == Lean specification prover output, whose openings "
                   "are 'unmasked value + prescribed mask' by construction (theorems); fill_bytes call count must be 14; the two "
-                  "independently randomised proofs of one witness must share none of the 26 proof fields." % len(progs))
+                  "independently randomised proofs of one witness must share none of the 26 proof fields; a caller RNG that FAILS after k = 0..13 draws must never yield a proof, one that delivers 14 or 15 must give the unlimited proof." % len(progs))
     return st
